@@ -117,7 +117,7 @@ def gen_C02(seed, tier):
 
 
 def calls_C03(g, mb):
-    c = ["call CRBA 1", "call NE", "call KE 1", "call ID", "call MINV 1"]
+    c = ["call CRBA 1", "call NE", "call KE 1", "call ID", "call MINV 1", "call LTL"]
     # flag cleared immediately after the documented update for the same state
     c += ["call UKC 1", "call CRBA 0"]
     return c
@@ -199,6 +199,179 @@ def gen_C12(seed, tier):
     return gen_generic("c12", seed, tier, 66, 400, calls_C12)
 
 
+
+# ------------------------------------------------------------------------------------------------
+# C14: construction sequences with a failing call injected at every position
+def gen_C14(seed, tier):
+    g = G.Gen(seed)
+    out, samples, sigs = [], [], set()
+    n = nmodels(tier, 80, 600)
+    kinds = G.KINDS
+    for i in range(n):
+        mb = G.ModelBuilder(g)
+        lines = []
+        nops = g.r.randint(2, 9)
+        fail_at = g.r.randint(0, nops)       # position of the injected failing call
+        fail_kind = g.r.choice(["dup", "dup", "dupfixed", "dupmulti", "dupcustom", "undef"])
+        names = []
+        used = 0
+        seq = []
+        for k in range(nops + 1):
+            if k == fail_at:
+                # the failing call
+                parent = g.r.choice(mb.ids)
+                if fail_kind == "undef" or not names:
+                    mb.lines.append("add %d %s U %s %s" % (parent, G.frs(g.frame()), G.frs(g.body()), "zz%d" % k))
+                    seq.append("undef")
+                else:
+                    nm = g.r.choice(names)
+                    if fail_kind == "dupfixed":
+                        mb.lines.append("add %d %s T Fixed %s %s" % (parent, G.frs(g.frame()), G.frs(g.body()), nm))
+                    elif fail_kind == "dupmulti":
+                        js, _, _ = mb.jspec(g.r.choice(["Emul3", "Emul6", "FloatingBase", "Emul2"]))
+                        mb.lines.append("add %d %s %s %s %s" % (parent, G.frs(g.frame()), js, G.frs(g.body()), nm))
+                    elif fail_kind == "dupcustom":
+                        mb.lines.append("add %d %s C %s %s %s" % (parent, G.frs(g.frame()), g.r.choice(["revX", "eulerZYX", "cyl"]), G.frs(g.body()), nm))
+                    else:
+                        js, _, _ = mb.jspec(g.r.choice(["RevoluteX", "Revolute", "Spherical", "Helical"]))
+                        if g.r.random() < 0.5:
+                            mb.lines.append("append %s %s %s %s" % (G.frs(g.frame()), js, G.frs(g.body()), nm))
+                        else:
+                            mb.lines.append("add %d %s %s %s %s" % (parent, G.frs(g.frame()), js, G.frs(g.body()), nm))
+                    seq.append(fail_kind)
+                mb.lines.append("dump")
+                mb.lines.append("params")
+                continue
+            # a succeeding call
+            parent = g.r.choice(mb.ids)
+            nm = "-"
+            if g.r.random() < 0.6:
+                used += 1
+                nm = "n%d" % used
+                names.append(nm)
+            if g.r.random() < 0.25:
+                mb.add_fixed(parent, nm)
+                seq.append("Fixed")
+            else:
+                kd = g.r.choice(kinds)
+                if g.r.random() < 0.3 and kd not in ("CustomRevX", "CustomEulerZYX", "CustomCyl"):
+                    # AppendBody: parent = previously added body
+                    prev = mb.ids[-1]
+                    nid = mb.add(prev, kd, nm)
+                    mb.lines[-1] = "append " + mb.lines[-1].split(" ", 2)[2]
+                else:
+                    mb.add(parent, kd, nm)
+                seq.append(kd)
+            mb.lines.append("dump")
+            mb.lines.append("params")
+        # accessors
+        for bid in list(range(1, mb.n_movable)) + mb.fixed_ids:
+            mb.lines.append("getparent %d" % bid)
+            mb.lines.append("getframe %d" % bid)
+        for nm in names + ["ROOT", "nosuch"]:
+            mb.lines.append("getid %s" % nm)
+        # still usable: a dynamics call on the final model
+        body = mb.state_lines() + ["call ID", "call CRBA 1"]
+        cid = "c14%s_%d" % (fail_kind, i)
+        G.emit_case(out, cid, mb, g, body)
+        sigs.add(tuple(seq))
+        if len(samples) < 3:
+            samples.append({"case": cid, "ops": seq, "fail_at": fail_at})
+        g.stats["fail:" + fail_kind] += 1
+        g.stats["nops:%d" % nops] += 1
+    return finish(g, out, samples, len(sigs))
+
+
+def parse_dump(tokens):
+    """'nb 3 | nj 3 | ...' -> dict name -> list of tokens"""
+    d = {}
+    for part in " ".join(tokens).split(" | "):
+        p = part.split()
+        if p:
+            d[p[0]] = p[1:]
+    return d
+
+
+def wf_dump(D):
+    """well-formedness of a structural dump (the C14 invariant), returns list of violated clauses"""
+    bad = []
+    I = lambda k: [int(x) for x in D.get(k, [])]
+    nb = I("nb")[0]
+    lam, jq, jdof, jt, w3 = I("lambda"), I("jq"), I("jdof"), I("jt"), I("w3")
+    sizes = I("sizes")
+    if any(x != nb for x in sizes if True) and not all(x == nb for x in sizes):
+        bad.append("per-body arrays of unequal length: %s (bodies %d)" % (sizes, nb))
+    if I("nj")[0] != nb:
+        bad.append("mJoints.size != mBodies.size")
+    for i in range(1, min(nb, len(lam))):
+        if not lam[i] < i:
+            bad.append("parent of %d is %d" % (i, lam[i]))
+    # contiguous q indices in insertion order
+    acc = 0
+    for i in range(1, min(nb, len(jq))):
+        if jq[i] != acc:
+            bad.append("q_index[%d]=%d, expected %d" % (i, jq[i], acc))
+        acc += jdof[i]
+    dof = I("dof")[0]
+    if dof != acc or I("qds")[0] != acc:
+        bad.append("dof_count/qdot_size %d/%d vs sum %d" % (dof, I("qds")[0], acc))
+    nsph = sum(1 for i in range(1, min(nb, len(jt))) if jt[i] == 6)
+    if I("qs")[0] != dof + nsph:
+        bad.append("q_size")
+    k = 0
+    for i in range(1, min(nb, len(jt))):
+        if jt[i] == 6:
+            if w3[i] != dof + k:
+                bad.append("w index of spherical joint %d" % i)
+            k += 1
+    # names resolve to existing ids
+    for nmid in D.get("names", []):
+        nm, idv = nmid.rsplit("=", 1)
+        idv = int(idv)
+        if not (idv < nb or (idv >= G.FIXED_DISC and idv - G.FIXED_DISC < I("nfixed")[0])):
+            bad.append("name %s -> dangling id %d" % (nm, idv))
+    for p in I("fpar"):
+        if not p < nb:
+            bad.append("fixed body with dangling movable parent")
+    return bad
+
+
+def impl_monitor_C14(text, impl_out):
+    """direct statement of C14 on the implementation: every dump is well-formed; a rejected
+    addition leaves dump and parameters exactly as they were; accessors return what was supplied."""
+    fails = []
+    cur = None
+    last_dump = last_params = None
+    prev_dump = prev_params = None
+    rejected = False
+    for line in impl_out.splitlines():
+        p = line.split()
+        if len(p) < 2:
+            continue
+        key, name, toks = p[0], p[1], p[2:]
+        cid = key.rsplit(".", 1)[0]
+        if cid != cur:
+            cur = cid
+            last_dump = last_params = prev_dump = prev_params = None
+            rejected = False
+        if name in ("add", "append"):
+            prev_dump, prev_params = last_dump, last_params
+            rejected = bool(toks) and toks[0] == "err"
+        elif name == "dump":
+            D = parse_dump(toks)
+            bad = wf_dump(D)
+            if bad:
+                fails.append({"key": key, "name": "dump", "why": "model not well-formed: " + "; ".join(bad[:3])})
+            if rejected and prev_dump is not None and toks != prev_dump:
+                fails.append({"key": key, "name": "dump", "why": "rejected addition changed the model structure"})
+            last_dump = toks
+        elif name == "params":
+            if rejected and prev_params is not None and toks != prev_params:
+                fails.append({"key": key, "name": "params", "why": "rejected addition changed model parameters"})
+            last_params = toks
+    return fails
+
+
 NOT_YET = {}
 
 COMMON_ASSUMPTIONS = ["double evaluation is compared with exact rational evaluation up to 1e-8*scale",
@@ -224,6 +397,10 @@ PROPS = {
             "assumptions": COMMON_ASSUMPTIONS},
     "C06": {"gen": gen_C06, "rule": RULE_MODELS, "explanation": "monitor: first and second jets of point positions / orientation",
             "assumptions": COMMON_ASSUMPTIONS},
+    "C14": {"gen": gen_C14, "impl_monitor": impl_monitor_C14,
+            "rule": "random construction sequences of 2-9 calls (AddBody with every joint kind, AppendBody, AddBodyCustomJoint, fixed bodies on any parent, named / unnamed) with one failing call (duplicate name on the movable / fixed / multi-DoF / custom path, or an undefined joint type) injected at a random position; structural dump and all numeric parameters after every call; accessors and a dynamics call at the end; distinct = distinct op-kind sequences",
+            "explanation": "monitor (direct, on the implementation's dump): well-formedness clauses after every call, rejected call leaves dump+parameters identical; correspondence: the Lean construction state machine reproduces every dump, returned id, error kind and accessor result exactly",
+            "assumptions": ["parent ids passed to AddBody are valid ids (the library does not check them)"]},
     "C12": {"gen": gen_C12, "rule": RULE_MODELS + "; random contact plane (unit normal, point off the origin)", "explanation": "monitor: definitions of mass, CoM, momentum, energies, ZMP on jets of the pose specification",
             "assumptions": COMMON_ASSUMPTIONS},
 }
